@@ -265,6 +265,20 @@ def crystallite(desc):
     return s
 
 
+def displaced_layer_slab(desc):
+    """rocksalt (100) slab whose outermost layer is lifted off: its bonds to the rest are marginal, so radii and
+    thresholds decide whether it stays in the cluster"""
+    from ase.build import bulk, surface
+
+    a0 = ROCKSALT[(desc["A"], desc["X"])]
+    s = surface(bulk(desc["A"] + desc["X"], "rocksalt", a=a0, cubic=True), (1, 0, 0), desc["layers"], vacuum=7.0).repeat((2, 2, 1))
+    z = s.positions[:, 2]
+    sel = z > z.max() - 0.3 if desc["side"] == "top" else z < z.min() + 0.3
+    s.positions[sel, 2] += desc["delta"] * (1 if desc["side"] == "top" else -1)
+    s.set_pbc(desc["pbc"])
+    return s, [int(i) for i in np.flatnonzero(sel)]
+
+
 def repo_data(desc):
     import os
 
@@ -334,6 +348,10 @@ def c01_family(tier):
                 continue
             fam.append(("rsstack", {"A": A, "B": B, "X": X, "a": a0, "reps_a": (1 + j % 2, 1 + (i + j) % 2, 1), "reps_b": (1 + j % 2, 1 + (i + j) % 2, 1 + i % 2),
                                     "pbc": pbc, "exchanges": (i + j) % 3, "noise": 0.02 * (i % 2), "i": i * 3 + j}))
+    for i, (A, X) in enumerate([("Na", "Cl"), ("Mg", "O"), ("Li", "F")] if not big else [("Na", "Cl"), ("Mg", "O"), ("Li", "F"), ("K", "Br"), ("Na", "F")]):
+        for j, delta in enumerate([0.4, 0.6, 0.8]):
+            fam.append(("displaced", {"A": A, "X": X, "layers": 2 + (i + j) % 2, "side": ["top", "bottom"][(i + j) % 2], "delta": delta,
+                                      "pbc": (True, True, True) if j % 2 == 0 else (True, True, False), "i": i * 3 + j}))
     cr = [("Si", "diamond", 5.43), ("Cu", "fcc", 3.61), ("Fe", "bcc", 2.87), ("C", "diamond", 3.57)]
     for i, (el, lat, a0) in enumerate(cr):
         for j, pbc in enumerate([(False, False, False), (True, False, False), (True, True, False)]):
@@ -382,6 +400,9 @@ def build(kind, desc):
         return a, {"n_bottom": nb}
     if kind == "crystallite":
         return crystallite(desc), {}
+    if kind == "displaced":
+        a, lifted = displaced_layer_slab(desc)
+        return a, {"lifted": lifted}
     if kind == "repodata":
         return repo_data(desc), {}
     raise ValueError(kind)
